@@ -17,8 +17,14 @@ RULE = ("for each vectorised stage (RegionGeom.throw, RegionGeomToO.throw, Spect
         "batch contains at least two distinct events and (for masked stages) both mask values")
 ASSUMPTIONS = ["outputs of two evaluations are compared with rtol 1e-12 (numpy's SIMD kernels may treat vector body and scalar tail differently by an ulp); the number of bit-identical comparisons is reported",
                "np.random.uniform is replaced from outside by a per-event stream for the stages that draw internally (Spectra, EASRadio)"]
-regen = regen_tables
 TOL = 1e-12
+
+
+def regen():
+    """the tables and the source tie: Props/C11.lean states the batch = per-event consequence for `Taus.tau_energy` /
+    `Taus.tau_exit_prob` as translated from the working tree (Gen/Src/C04, Gen/Src/C05)"""
+    import srctie
+    return {**regen_tables(), **srctie.regen("C04"), **srctie.regen("C05")}
 
 
 def same(a, b):
@@ -327,6 +333,8 @@ def run(ctx: Ctx):
             elif pat == 3:
                 b[:] = rng.uniform(gB[-1] * 1.01, 1.5, n)          # all above
             E = tv.tau_energy(b.copy(), le.copy(), u.copy())
+            import tautie
+            tautie.compare_tau_energy(ctx, tv, b, le, u, E)   # source tie: each event of the batch vs the translated per-event function
             o = run_driver([f"tauenergybatch {v} {n} " + " ".join(f"{f2h(b[i])} {f2h(le[i])} {f2h(u[i])}" for i in range(n))])[0]
             ctx.case(("batchmodel", v, trial), {"op": "tauenergybatch", "version": v, "n": n, "pattern": ["mixed", "all-valid", "all-low", "all-high"][pat]} if trial == 0 else None)
             ctx.count("batchmodel_" + ["mixed", "all-valid", "all-low", "all-high"][pat])
@@ -334,7 +342,10 @@ def run(ctx: Ctx):
                 ctx.disagree("C11.tauEnergyBatch", {"version": v, "n": n, "model": " ".join(o)[:200], "code": E[:5].tolist()})
             ctx.traces += 1
             # the exit-probability batch (floor, masks, sub-batches, scatter, 10**) on a fresh object
-            P = make_taus(v).tau_exit_prob(b.copy(), le.copy())
+            tp = make_taus(v)
+            raw_p = np.array(tp.pexit_grid.data, dtype=np.float64, copy=True)
+            P = tp.tau_exit_prob(b.copy(), le.copy())
+            tautie.compare_exit_prob(ctx, tp, raw_p, b, le, P)
             o = run_driver([f"pexitbatch {v} {n} " + " ".join(f"{f2h(b[i])} {f2h(le[i])}" for i in range(n))])[0]
             ctx.case(("pexitbatchmodel", v, trial))
             if o[0] != "ok" or len(o) - 1 != n or not all(close(h2f(x), y, 1e-9) for x, y in zip(o[1:], P)):
